@@ -99,6 +99,8 @@ pub struct RunRt {
     /// later" jumps would otherwise dominate the total).
     pub clock_small_ns: u64,
     pub mono: bool,
+    /// Do waiting writers keep new readers out in this execution?
+    pub writer_pref: bool,
     // events
     pub seq: u32,
     pub events: Vec<Ev>,
@@ -141,6 +143,7 @@ impl RunRt {
             clock_ns: 0,
             clock_small_ns: 0,
             mono: true,
+            writer_pref: false,
             seq: 0,
             events: vec![],
             fp: Fnv::new(),
@@ -183,6 +186,7 @@ impl RunRt {
         self.clock_ns = 0;
         self.clock_small_ns = 0;
         self.mono = true;
+        self.writer_pref = false;
         self.seq = 0;
         self.events.clear();
         self.fp = Fnv::new();
@@ -541,6 +545,7 @@ pub fn init_once() {
             point: hook_point,
             blocked: hook_blocked,
             monotonic: hook_monotonic,
+            writer_preference: hook_writer_preference,
             fault: hook_fault,
         });
         set_quiet_hook();
@@ -615,6 +620,10 @@ pub fn arm_io_faults(seed: u64, rate: u8, sites: &[String]) {
         rt.io_rate = rate;
         rt.io_sites = sites.to_vec();
     });
+}
+
+fn hook_writer_preference() -> bool {
+    with_rt(|rt| rt.active && rt.writer_pref)
 }
 
 fn hook_monotonic() -> Option<Option<Instant>> {
